@@ -67,6 +67,7 @@ fn run_case(line: &str) -> String {
     match t.word() {
         "dist" => run_dist(&mut t),
         "l1" => l1::run(&mut t),
+        "applyb" => l1::run_applyb(&mut t),
         "parse" => l2::run_parse(&mut t),
         "rt" => l2::run_roundtrip(&mut t),
         other => format!("UNKNOWN {}", other),
